@@ -165,10 +165,54 @@ def defaults_table(ctx, prog, rule):
         else:
             v = tree_str(dv)
         got.setdefault(attr, []).append(v)
-    want = {"minimum": sorted([DEFAULTS["Integer"]["minimum"]] * 2), "maximum": sorted([DEFAULTS["Integer"]["maximum"]] * 2),
-            "scale": [1.0], "offset": [0.0], "precision": ["double"]}
-    gs = {k: sorted(v) for k, v in got.items()}
-    ctx.ob(rule, "defaults/RecordDataType::from_node", gs == want, "defaults of omitted attributes: %s (spec: minimum -2^63, maximum 2^63-1 for both integer kinds, scale 1, offset 0, precision double)" % gs)
+    # the defaults seen from the values that are built: every Integer / ScaledInteger literal takes its fields from
+    # optional_attribute(.., "<attr>") with the documented default (however many arms share the code)
+    def field_default(tr):
+        tr = strip(tr)
+        if tr[0] == "call" and tr[1].endswith("Option::<T>::unwrap_or") and len(tr[2]) == 2:
+            src, dv = strip(tr[2][0]), strip(tr[2][1])
+            if src[0] == "call" and src[1] == "record::optional_attribute" and strip(src[2][1])[0] == "const":
+                v = dv[2] if dv[0] == "const" else tree_str(dv)
+                ty = tr[4][0] if len(tr) > 4 and tr[4] else ""
+                if isinstance(v, int) and ty == "i64":
+                    v = v - (1 << 64) if v >= (1 << 63) else v
+                elif isinstance(v, int) and ty == "f64":
+                    import struct
+                    v = struct.unpack("<d", struct.pack("<Q", v))[0]
+                return strip(src[2][1])[2], v
+        return None, tree_str(tr)[:60]
+    ATTR = {"min": "minimum", "max": "maximum", "scale": "scale", "offset": "offset"}
+    built = {}
+    for bi in f.cfg():
+        for st in f.blocks[bi]["stmts"]:
+            rv = st["rv"]
+            if rv["k"] == "aggregate" and rv["kind"].get("adt") == "record::RecordDataType" and rv["kind"]["variant"] in ("Integer", "ScaledInteger"):
+                for name, o in zip(rv["kind"]["fields"], rv["ops"]):
+                    built.setdefault(rv["kind"]["variant"], {})[name] = field_default(R.operand(o))
+    want_b = {"Integer": {"min": ("minimum", DEFAULTS["Integer"]["minimum"]), "max": ("maximum", DEFAULTS["Integer"]["maximum"])},
+              "ScaledInteger": {"min": ("minimum", DEFAULTS["ScaledInteger"]["minimum"]), "max": ("maximum", DEFAULTS["ScaledInteger"]["maximum"]),
+                                "scale": ("scale", 1.0), "offset": ("offset", 0.0)}}
+    # Float precision: absent means double
+    prec = [v for v in got.get("precision", [])]
+    okprec = prec == ["double"]
+    if not prec:
+        def is_prec(a):
+            return a[0] == "call" and a[1].endswith("::attribute") and len(a[2]) == 2 and strip(a[2][1])[0] == "const" and strip(a[2][1])[2] == "precision"
+        aggs = {"Single": [], "Double": []}
+        for bi in f.cfg():
+            for st in f.blocks[bi]["stmts"]:
+                rv = st["rv"]
+                if rv["k"] == "aggregate" and rv["kind"].get("adt") == "record::RecordDataType" and rv["kind"]["variant"] in aggs:
+                    aggs[rv["kind"]["variant"]].append(bi)
+        tests = option_tests(f, R, is_prec)
+        okprec = bool(tests) and bool(aggs["Double"])
+        for sw, some_s, none_s in tests:
+            from simple_rules import _propagate_const_flags
+            g_ = _propagate_const_flags(f, cfg_without_edges(f, {(sw, some_s)}))
+            r = reach(g_, [0])
+            okprec = okprec and not any(b in r for b in aggs["Single"]) and any(b in r for b in aggs["Double"])
+    gs = {"built": built, "precision absent -> double": okprec}
+    ctx.ob(rule, "defaults/RecordDataType::from_node", built == want_b and okprec, "defaults of omitted attributes: %s (spec: minimum -2^63, maximum 2^63-1 for both integer kinds, scale 1, offset 0, precision double)" % gs)
     # float min/max stay absent (no unwrap_or on them): Single/Double aggregates take the Option directly
     okf = True
     for bi in f.cfg():
@@ -189,18 +233,42 @@ def defaults_table(ctx, prog, rule):
         dv = strip(Rg.operand(t["args"][1]))
         if src[0] == "call" and src[1].endswith("::attribute") and strip(src[2][1])[2] == "precision":
             pd.append(dv[2])
-    ctx.ob(rule, "defaults/precision-sibling", pd == ["double"], "limits::extract_limit uses the same precision default: %s" % pd)
-    # max < min rejected for both integer kinds
+    okp = pd == ["double"]
+    if not pd:
+        # the same decision as a match on the optional attribute: the absent case builds a Double, never a Single
+        def is_prec(a):
+            return a[0] == "call" and a[1].endswith("::attribute") and len(a[2]) == 2 and strip(a[2][1])[0] == "const" and strip(a[2][1])[2] == "precision"
+        aggs = {"Single": [], "Double": []}
+        for bi in g.cfg():
+            for st in g.blocks[bi]["stmts"]:
+                rv = st["rv"]
+                if rv["k"] == "aggregate" and rv["kind"].get("adt") == "record::RecordValue" and rv["kind"]["variant"] in aggs:
+                    aggs[rv["kind"]["variant"]].append(bi)
+        tests = option_tests(g, Rg, is_prec)
+        okp = bool(tests) and bool(aggs["Double"])
+        for sw, some_s, none_s in tests:
+            r = reach(g.cfg(), [none_s])
+            okp = okp and not any(b in r for b in aggs["Single"]) and any(b in r for b in aggs["Double"])
+        pd = ["absent -> Double" if okp else "absent -> ?"]
+    ctx.ob(rule, "defaults/precision-sibling", okp, "limits::extract_limit uses the same precision default: %s" % pd)
+    # max < min rejected for both integer kinds: every Integer / ScaledInteger literal is built only after a test
+    # `maximum < minimum` whose true edge cannot return Ok
+    checks = []
+    for bi in f.cfg():
+        ot = order_test(f, R, bi)
+        if ot is None:
+            continue
+        oe = order_edges(ot, lambda x: "'maximum'" in tree_str(strip(x)) and "'minimum'" not in tree_str(strip(x)),
+                         lambda y: "'minimum'" in tree_str(strip(y)) and "'maximum'" not in tree_str(strip(y)))
+        if oe is not None and f.ok_reachable(start=[oe[0]]) is None:
+            checks.append(bi)
     n = 0
     for bi in f.cfg():
-        t = f.blocks[bi]["term"]
-        if t["k"] == "switch":
-            dl = op_place(t["discr"])
-            d = strip(R.place(dl)) if dl else None
-            if d and d[0] == "binop" and d[1] == "Lt":
-                a, b = tree_str(strip(d[2])), tree_str(strip(d[3]))
-                if "'maximum'" in a and "'minimum'" in b:
-                    e = switch_edges(f, bi)
-                    if f.ok_reachable(start=[e["otherwise"]]) is None:
-                        n += 1
-    ctx.ob(rule, "defaults/range-order-checked", n == 2, "maximum < minimum is rejected for Integer and ScaledInteger (%d checks)" % n)
+        for st in f.blocks[bi]["stmts"]:
+            rv = st["rv"]
+            if rv["k"] == "aggregate" and rv["kind"].get("adt") == "record::RecordDataType" and rv["kind"]["variant"] in ("Integer", "ScaledInteger"):
+                if any(f.dominates(c, bi) for c in checks):
+                    n += 1
+                else:
+                    n = -99
+    ctx.ob(rule, "defaults/range-order-checked", n >= 2, "maximum < minimum is rejected for Integer and ScaledInteger (%d checks)" % n)
